@@ -590,6 +590,134 @@ class Item:
         self.log.append({"kind": "desugar-for", "loop": k, "pattern": P, "iter": E,
                          "why": "rustc's own desugaring; Verus `for` cannot contain `continue`"})
 
+    ITER_ADAPTERS = ("filter", "map", "filter_map", "skip_while", "take_while", "enumerate")
+
+    def desugar_iter_chain(self, anchor_src, nth, elem, out="__out"):
+        """SRC.a1(c1).a2(c2)...[.collect()]  ==>  { let mut out: Vec<ELEM> = Vec::new(); for __x0 in SRC { .. } out }
+        where every adapter (filter, map, filter_map, skip_while, take_while, enumerate) becomes its
+        std-documented per-element step with the closure body inlined verbatim (closure parameters become
+        `let PAT = [&]x;` in a block of their own).  `anchor` is the source expression SRC.  Dropped:
+        laziness (all closures here are pure) and the concrete iterator type (the value is a Vec)."""
+        pat = texts(tokenize(anchor_src))
+        hits = [h for h in find_seq(self.toks, pat) if all(self.toks[h + k].line != 0 for k in range(len(pat)))]
+        if len(hits) < nth or nth < 1:
+            raise LostAnchor("desugar-iter-chain: source `%s` occurs %d times in %s, wanted #%d"
+                             % (" ".join(pat), len(hits), self.path, nth))
+        h = hits[nth - 1]
+        pos = h + len(pat)
+        T = self.toks
+        stages = []
+        while pos + 2 < len(T) and T[pos].s == "." and T[pos + 1].s in self.ITER_ADAPTERS and T[pos + 2].s == "(":
+            name = T[pos + 1].s
+            c = match_close(T, pos + 2)
+            a = pos + 3
+            if name == "enumerate":
+                if a != c:
+                    raise LostAnchor("desugar-iter-chain: enumerate with arguments")
+                stages.append((name, None, None))
+            else:
+                if T[a].s == "move":
+                    a += 1
+                if T[a].s != "|":
+                    raise LostAnchor("desugar-iter-chain: argument of .%s(..) in %s is not a closure literal" % (name, self.path))
+                b = a + 1
+                d = 0
+                while b < c and not (T[b].s == "|" and d == 0):
+                    if T[b].s in OPEN:
+                        d += 1
+                    elif T[b].s in CLOSE:
+                        d -= 1
+                    b += 1
+                if b >= c:
+                    raise LostAnchor("desugar-iter-chain: unterminated closure parameter list")
+                stages.append((name, T[a + 1:b], T[b + 1:c]))
+            pos = c + 1
+        if not stages:
+            raise LostAnchor("desugar-iter-chain: no supported adapter follows `%s` in %s" % (" ".join(pat), self.path))
+        if pos + 1 < len(T) and T[pos].s == "." and T[pos + 1].s in ("rev", "zip", "chain", "flat_map", "flatten", "skip", "take", "step_by", "peekable", "scan", "inspect", "cloned", "copied"):
+            raise LostAnchor("desugar-iter-chain: unsupported adapter .%s in %s" % (T[pos + 1].s, self.path))
+        terminal = None
+        if pos + 1 < len(T) and T[pos].s == "." and T[pos + 1].s == "collect":
+            q = pos + 2
+            if T[q].s == ":" and T[q + 1].s == ":":
+                q += 2
+                d = 0
+                while True:
+                    if T[q].s == "<":
+                        d += 1
+                    elif T[q].s == ">":
+                        d -= 1
+                        if d == 0:
+                            break
+                    q += 1
+                q += 1
+            if T[q].s != "(" or T[q + 1].s != ")":
+                raise LostAnchor("desugar-iter-chain: malformed collect")
+            pos = q + 2
+            terminal = "collect"
+        line = T[h].line
+
+        def sc(txt):
+            ts = tokenize(txt)
+            for t in ts:
+                t.line = line
+            return ts
+
+        pre = sc("{ let mut %s: Vec<%s> = Vec::new();" % (out, elem))
+        nsw = 0
+        has_enum = any(st[0] == "enumerate" for st in stages)
+        if has_enum:
+            pre += sc(" let mut __n: usize = 0;")
+        for st in stages:
+            if st[0] == "skip_while":
+                pre += sc(" let mut __sw%d: bool = true;" % nsw)
+                nsw += 1
+        src = [Tok(t.ws, t.s, t.line) for t in T[h:h + len(pat)]]
+        src[0].ws = " "
+        body = []
+        closers = 0
+        k = 0
+        sw = 0
+        for (name, ptoks, btoks) in stages:
+            x = "__x%d" % k
+            if name == "enumerate":
+                body += sc("\n let __x%d = (__n, %s); __n = __n + 1;" % (k + 1, x))
+                k += 1
+                continue
+            P = [Tok(t.ws, t.s, t.line) for t in ptoks]
+            B = [Tok(t.ws, t.s, t.line) for t in btoks]
+            if P and not P[0].ws:
+                P[0].ws = " "
+            if B and not B[0].ws:
+                B[0].ws = " "
+            if name in ("filter", "skip_while", "take_while"):
+                body += sc("\n let __c%d = { let" % k) + P + sc(" = &%s;" % x) + B + sc(" };")
+                if name == "filter":
+                    body += sc(" if __c%d {" % k)
+                    closers += 1
+                elif name == "take_while":
+                    body += sc(" if !__c%d { break; }" % k)
+                else:
+                    body += sc(" if __sw%d && __c%d { } else { __sw%d = false;" % (sw, k, sw))
+                    sw += 1
+                    closers += 1
+            elif name == "map":
+                body += sc("\n let __x%d = { let" % (k + 1)) + P + sc(" = %s;" % x) + B + sc(" };")
+                k += 1
+            elif name == "filter_map":
+                body += sc("\n let __o%d = { let" % k) + P + sc(" = %s;" % x) + B + sc(" };")
+                body += sc(" if let Some(__x%d) = __o%d {" % (k + 1, k))
+                closers += 1
+                k += 1
+        body += sc("\n %s.push(__x%d);" % (out, k)) + sc(" }" * closers)
+        new = pre + sc("\n for __x0 in") + src + sc(" {") + body + sc("\n } %s }" % out)
+        new[0].ws = T[h].ws if T[h].ws else " "
+        self.toks[h:pos] = new
+        self.log.append({"kind": "desugar-iter-chain", "source": " ".join(pat),
+                         "stages": [st[0] for st in stages], "terminal": terminal, "elem": elem,
+                         "why": "std-documented per-element semantics of the adapters; closure bodies inlined verbatim",
+                         "drops": "laziness; the iterator's concrete type (value is a Vec)"})
+
     def drop_logs(self, expect):
         """delete every `trace!/debug!/info!/warn!/error!( .. );` statement (tracing macros; also the
         `tracing::warn!` path form).  The arguments are NOT kept: any argument containing an
